@@ -187,4 +187,10 @@ def _is_member(n):
 
 
 def member_reads(m):
-    return sorted({n.get('name') for n in walk(m) if n.get('kind') == 'MemberExpr' and _is_member(n)})
+    out = set()
+    for n in walk(m):
+        if n.get('kind') == 'CXXMemberCallExpr':
+            continue
+        if n.get('kind') == 'MemberExpr' and _is_member(n) and 'bound member function' not in (n.get('type', {}) or {}).get('qualType', ''):
+            out.add(n.get('name'))
+    return sorted(out)
